@@ -625,3 +625,20 @@ K("G0.fragment_contact_dispatch", ["C05", "C03", "C14"], FRAG, "check_fragment_c
 K("G0.line_touching_arc_circle", ["C05", "C14"], LINE, "check_line_touching_arc_circle", "Line::is_touching_arc / is_touching_circle",
   "a line touches an arc iff they share an end point; a circle iff an end point lies strictly inside it", timeout=600,
   assumes=["Line::angle_rad stubbed by any f32 (is_touching_circle computes an unused heading)"])
+
+# ------------------------------------------------------------------------------------------------
+# vacuity canaries: every property's run contains one deliberately false obligation per engine it uses
+# ------------------------------------------------------------------------------------------------
+def _finish_canaries():
+    kani_props = sorted({p for o in OBLIGATIONS if o["engine"] == "kani" and not o.get("canary") for p in o["props"]})
+    verus_props = sorted({p for o in OBLIGATIONS if o["engine"] == "verus" and not o.get("canary") for p in o["props"]})
+    for o in OBLIGATIONS:
+        if o["name"] == "text.canary":
+            o["props"] = kani_props
+        if o["name"] == "M.canary":
+            o["props"] = verus_props
+    # the separate C18 canary is the same unit as M.canary
+    OBLIGATIONS[:] = [o for o in OBLIGATIONS if o["name"] != "C18.canary"]
+
+
+_finish_canaries()
